@@ -95,6 +95,7 @@ pub(crate) fn park(location: Location) {
             // The thread was previously unparked while it was not parked.
             // Instead of parking, consume the unpark.
             active.unparked = false;
+            active.causality.join(&active.unpark_causality);
             return false;
         }
 
@@ -109,6 +110,12 @@ pub(crate) fn park(location: Location) {
     if switch {
         Scheduler::switch();
     }
+
+    // The thread was unparked: synchronize with the threads that unparked it.
+    execution(|execution| {
+        let active = execution.threads.active_mut();
+        active.causality.join(&active.unpark_causality);
+    });
 }
 
 /// Add an execution branch point.
